@@ -152,6 +152,38 @@ def main(tier, only=None):
             # the window of target sizes that end inside the first group of the second flex group (bitmaps and inode tables of G groups live there)
             lo = G * 256 + 1
             flexwin[name] = (lo - 4, lo + (140 if quick else 256) + 4) if 'pk' not in name else (24, 24 + (200 if quick else 700))
+    # runtime-built bases whose interesting objects have their inodes in the LAST groups (the low inodes are used up by fillers first): a shrink that removes those
+    # groups has to renumber them -- multi-block directories (an empty block, a block holding only hard links to inodes that stay), an indexed directory, files with
+    # xattr blocks, a fragmented file, slow symlinks
+    if not only:
+        DBG = tool('debugfs')
+        for name, feat in ((('hiino_csum', 'metadata_csum,64bit'),) if quick else (('hiino_csum', 'metadata_csum,64bit'), ('hiino', '^metadata_csum,uninit_bg'), ('hiino_inline', 'metadata_csum,inline_data'))):
+            p = os.path.join(scratch(), name + '.img')
+            rc, out = run([tool('mke2fs'), '-q', '-F', '-t', 'ext4', '-O', '^has_journal,^resize_inode,^flex_bg,' + feat, '-b', '1024', '-g', '256', '-N', '128', '-I', '256',
+                           '-U', '6b33f586-a183-4383-921d-30ab132db9b9', '-E', 'hash_seed=a0c4b9f1-7e1d-4c6b-8f4e-9d2f1b3c5a70', p, str(8 * 256 + 1)], timeout=120)
+            if rc != 0: log('C08: runtime base %s: mke2fs exit %s' % (name, rc)); continue
+            src = os.path.join(scratch(), 'hi.payload'); open(src, 'wb').write(bytes((k * 7 + 3) & 0xff for k in range(5000)))
+            frag = os.path.join(scratch(), 'hi.frag')
+            with open(frag, 'wb') as f:
+                for i in range(6): f.seek(2 * i * 1024); f.write(bytes((k + i) & 0xff for k in range(1024)))
+            cmds = ['mknod /p%d p' % n for n in range(12, 113)]             # inodes 12..112: groups 0..6 (16 inodes per group)
+            cmds += ['mkdir /d', 'write %s /d/data' % src, 'symlink /d/sl %s' % ('s' * 90), 'ea_set /d/data user.big %s' % ('B' * 300), 'ea_set /d/sl user.s ss',
+                     'mkdir /d/sub', 'write %s /d/sub/frag' % frag, 'ea_set /d user.dir dv']
+            cmds += ['mkdir /hx'] + ['expand_dir /hx'] * 4 + ['ln /p12 /hx/%s_%03d' % ('k' * 40, i) for i in range(70)] + ['sif /p12 links_count 71', 'mkdir /links']
+            sp = os.path.join(scratch(), 'hi.dbg'); open(sp, 'w').write('\n'.join(cmds) + '\n')
+            run([DBG, '-w', '-f', sp, p], timeout=120)
+            rc, out = run([E2FSCK, '-fyD', p], timeout=120)            # indexes /hx (and packs every directory), so the loose blocks are added afterwards
+            cmds = ['expand_dir /d', 'expand_dir /links'] + ['ln /p13 /links/%s_%02d' % ('l' * 40, i) for i in range(30)] + ['sif /p13 links_count 31']
+            cmds += ['rm /p%d' % n for n in range(20, 113) if n % 16 != 5]      # a few fillers stay in every group
+            open(sp, 'w').write('\n'.join(cmds) + '\n')
+            run([DBG, '-w', '-f', sp, p], timeout=120)
+            if rc not in (0, 1) or run([E2FSCK, '-fn', p], timeout=120)[0] != 0:
+                log('C08: runtime base %s not usable' % name); continue
+            d_ = open(p, 'rb').read(); im_ = Image(d_)
+            hi_ = [n for n, ino, ft, l in im_.read_dir(im_.inode(2)) if n in (b'd', b'hx', b'links') and ino > 64]
+            if len(hi_) != 3: log('C08: runtime base %s: directories did not land in the last groups (%s)' % (name, hi_)); continue
+            fsweep._cache[name] = open(p, 'rb').read(); os.unlink(p)
+            bases = bases + [name]
     TREES = {b: xtree.tree(Image(fsweep.base_data(b))) for b in bases}
     jobs = []
     for b in bases:
@@ -183,7 +215,7 @@ def main(tier, only=None):
         if st == 'bad':
             ck.violation(cid, {'base': j[1], 'args': j[2], 'what': msg, 'resize2fs': r})
     ck.add(evaluations=len(jobs), distinct_nontrivial=stat.get('ok', 0), states=len(jobs), transitions=len(jobs), traces_validated_against_impl=len(jobs),
-           rule='populated corpus image x every target size (quick: all sizes within 6 blocks of a group boundary or of the current size, every 13th otherwise) from 64 blocks to 3x / +6 groups, plus -M -P -b/-s -S; plus runtime-built filesystems with 16/32/64-group flex groups (and packed_meta_blocks) x every shrink target that ends inside the metadata area of a flex group; '
+           rule='populated corpus image x every target size (quick: all sizes within 6 blocks of a group boundary or of the current size, every 13th otherwise) from 64 blocks to 3x / +6 groups, plus -M -P -b/-s -S; plus runtime-built filesystems whose directories (multi-block with an empty block / a block of hard links only / indexed), xattr-carrying files and symlinks have their inodes in the last groups so that every shrink renumbers them; plus runtime-built filesystems with 16/32/64-group flex groups (and packed_meta_blocks) x every shrink target that ends inside the metadata area of a flex group; '
                 'oracle: success => reported size = s_blocks_count, e2fsck -fn = 0, xck.check clean, xck.tree unchanged, and on the traced runs the error-flag invariant over every prefix of the write trace; '
                 'refusal => byte-identical image; mid-run failure => flagged superblock.  distinct_nontrivial = successful resizes',
            samples=[jobs[0][0], jobs[len(jobs) // 3][0], jobs[-1][0]])
